@@ -37,6 +37,7 @@ type Config struct {
 	KeepObs     bool // keep the observations of every completed path (2-safety comparisons across paths)
 	RunCmdInits bool // interpret the init#k functions of package cmd (cobra/pflag registration)
 	FreshInits  bool // re-initialise all package-level state before every path
+	RepoPrefix  string // import path prefix of the module under test: its package state is re-initialised before every path
 }
 
 type PathResult struct {
@@ -147,9 +148,34 @@ func (w *Worker) freshState() {
 	w.runInits()
 }
 
+// freshRepoState does the same for the packages of the module under test (and
+// the harness package) only: their package-level variables are zeroed and their
+// initialisers interpreted again before every path, so that no path sees what
+// an earlier path of the same worker left in them. The other packages (standard
+// library, dependencies) keep the state their initialisers produced.
+func (w *Worker) freshRepoState() {
+	i := w.interp
+	pre := w.cfg.RepoPrefix
+	if pre == "" {
+		return
+	}
+	any := false
+	for g, cell := range i.globals {
+		if g.Pkg != nil && strings.HasPrefix(g.Pkg.Pkg.Path(), pre) {
+			*cell = zero(mustDeref(g.Type()))
+			any = true
+		}
+	}
+	if any {
+		w.runInitsOf(func(p *ssa.Package) bool { return strings.HasPrefix(p.Pkg.Path(), pre) })
+	}
+}
+
 // runInits interprets the init functions of the configured packages, once
 // per worker, in concrete mode and tolerantly.
-func (w *Worker) runInits() {
+func (w *Worker) runInits() { w.runInitsOf(nil) }
+
+func (w *Worker) runInitsOf(only func(*ssa.Package) bool) {
 	i := w.interp
 	t0 := time.Now()
 	defer func() {
@@ -158,6 +184,9 @@ func (w *Worker) runInits() {
 		}
 	}()
 	for _, pkg := range w.cfg.InitPkgs {
+		if only != nil && !only(pkg) {
+			continue
+		}
 		fn := pkg.Func("init")
 		if fn == nil {
 			continue
@@ -226,6 +255,8 @@ func (w *Worker) execute(ps *pathState, f func()) pathEnd {
 func (w *Worker) RunPath(h *ssa.Function, prefix []Decision, concrete map[string]ModelVal) (*PathResult, [][]Decision) {
 	if w.cfg.FreshInits {
 		w.freshState()
+	} else {
+		w.freshRepoState()
 	}
 	ps := w.newPath(prefix)
 	if concrete != nil {
